@@ -72,7 +72,7 @@ def cases(tier, rng):
         k = 1101 if direction == "down" else 1102
         yield {"k": k, "args": [ds, [hm], mask, [has], [sml], [start], [1 if unit_m else 0], [unit], [nc, xres, yres, 5], nets.topo_order(ds)],
                "call": {"api": rng.choice(["ras-path", "ras-snap"]), "ml": ml, "nr": nr, "nc": nc, "flw": flw, "xy": rng.random() < 0.4,
-                        "unit_m": unit_m, "direction": direction, "xres": xres, "yres": yres},
+                        "unit_m": unit_m, "direction": direction, "xres": xres, "yres": yres, "layout": rng.choice(["C", "C", "F", "T", "S"])},
                "group": f"raster-{direction}-{'m' if unit_m else 'cell'}"}
 
 
@@ -152,7 +152,8 @@ def impl(case):
         return [[0], idx_list(v[0]), [int(float(v[1][0]) * unit)]]
     tr = Affine(float(call["xres"]), 0.0, 10.0, 0.0, float(call["yres"]), 20.0)
     flw = pyflwdir.from_array(np.array(call["flw"], dtype=np.uint8).reshape(call["nr"], call["nc"]), ftype="d8", transform=tr)
-    m2 = mask.reshape(call["nr"], call["nc"]) if mask is not None else None
+    from implutil import layout
+    m2 = layout(mask.reshape(call["nr"], call["nc"]), call.get("layout")) if mask is not None else None
     kw = dict(mask=m2, max_length=ml, unit="m" if call["unit_m"] else "cell", direction=call["direction"])
     start = a[5][0]
     if call["xy"]:
